@@ -20,6 +20,7 @@
 #include "score.h"
 #include "search.h"
 #include "ucirig.h"
+#include "ucifmt.h"
 #include "verif_hooks.h"
 
 #include <fstream>
@@ -67,14 +68,23 @@ struct Model
     // the book named by the last `setoption name Polyglot Book`: key -> records
     std::map<uint64_t, std::vector<BookRec>> book;
     bool have_book = false;
+    // After `ucinewgame` a GUI always sends `position` before anything that looks at the board; what the board is in
+    // between is the engine's business (this one resets it to the start position, another might keep it), so the model
+    // treats it as unknown and the generator sends a `position` command next.
+    bool known = false;
     void set(const ref::Pos& s, const std::vector<ref::Move>& ms)
     {
         start = s;
         moves = ms;
         cur = s;
         for (auto& m : ms) cur = ref::make(cur, m);
+        known = true;
     }
-    void newgame() { set(ref::startpos(), {}); }
+    void newgame()
+    {
+        set(ref::startpos(), {});
+        known = false;
+    }
 };
 
 inline std::string position_line(const ref::Pos& s, const std::vector<ref::Move>& ms, bool allowStartpos)
@@ -120,6 +130,7 @@ inline bool run_inner(Tape& t, Report& rep, Focus focus)
         R.send("isready");
         return R.out.wait_line(m, [](const std::string& l) { return l == "readyok"; }, 120000) >= 0;
     };
+    const ucifmt::Fmt& FMT = ucifmt::fmt(&rep);  // parsers calibrated on the start position (first use in this process)
     send("ucinewgame");
     send("setoption name Polyglot Book value /nonexistent-verif-book");
     send("setoption name Polyglot Sample value best");
@@ -138,6 +149,7 @@ inline bool run_inner(Tape& t, Report& rep, Focus focus)
         if (focus == F_C19 && t.chance(1, 4)) k = 7;
         if (focus == F_C09 && t.chance(1, 8)) k = 7;  // a book record for the current position, then searchmoves
         if ((focus == F_C05 || focus == F_C08 || focus == F_C09) && t.chance(1, 3)) k = 3;
+        if (!M.known && k != 2) k = 0;  // nothing looks at the board between ucinewgame and the next position command
         switch (k)
         {
         case 0:
@@ -391,10 +403,15 @@ inline bool run_inner(Tape& t, Report& rep, Focus focus)
             // C04 through the text layer: the key printed by `hash` is a function of the position for the whole process
             size_t mark = R.out.size();
             send("hash");
+            if (!FMT.hash)
+            {
+                sync();
+                break;
+            }
             long li = R.out.wait_line(mark, [](const std::string& l) { return l.rfind("Hex: ", 0) == 0; }, 60000);
             rep.eval();
             rep.cls("uci:hash");
-            if (li < 0) break;
+            if (li < 0 || !FMT.hash) break;
             std::string hex = R.out.snapshot(size_t(li))[0].substr(5);
             std::string k4 = ref::key4(M.cur);
             static std::map<std::string, std::string> keyOf;   // position -> key text
@@ -420,11 +437,16 @@ inline bool run_inner(Tape& t, Report& rep, Focus focus)
         {
             size_t mark = R.out.size();
             send("printboard");
+            if (!FMT.printboard)
+            {
+                sync();  // the command is still part of the session; its output format is not the one this parser knows
+                break;
+            }
             long li = R.out.wait_line(mark, [](const std::string& l) { return l.rfind("Fen: \"", 0) == 0; }, 60000);
             rep.eval();
             rep.cls("uci:printboard");
             if (li < 0) break;
-            if (focus == F_C02)
+            if (focus == F_C02 && FMT.printboard)
             {
                 std::string line = R.out.snapshot(size_t(li))[0];
                 std::string got = line.substr(6, line.size() - 7), want = ref::to_fen(M.cur);
@@ -439,11 +461,16 @@ inline bool run_inner(Tape& t, Report& rep, Focus focus)
             if (ref::insufficient_material(M.cur)) break;
             size_t mark = R.out.size();
             send("staticeval");
+            if (!FMT.staticeval)
+            {
+                sync();
+                break;
+            }
             long li = R.out.wait_line(mark, [](const std::string& l) { return l.rfind("Score: ", 0) == 0; }, 60000);
             rep.eval();
             rep.cls("uci:staticeval");
             if (li < 0 || !sync()) break;
-            if (focus == F_C14)
+            if (focus == F_C14 && FMT.staticeval)
             {
                 std::string got = R.out.snapshot(size_t(li))[0].substr(7);
                 auto fresh = std::make_unique<engine::PositionScorer>();
@@ -460,11 +487,16 @@ inline bool run_inner(Tape& t, Report& rep, Focus focus)
         {
             size_t mark = R.out.size();
             send("perft 1");
+            if (!FMT.perft)
+            {
+                sync();
+                break;
+            }
             long li = R.out.wait_line(mark, [](const std::string& l) { return l.rfind("Speed:", 0) == 0; }, 120000);
             rep.eval();
             rep.cls("uci:perft");
             if (li < 0) break;
-            if (focus == F_C01)
+            if (focus == F_C01 && FMT.perft)
             {
                 std::vector<std::string> got;
                 for (auto& l : R.out.snapshot(mark))
